@@ -27,7 +27,10 @@ type genReq struct {
 	BodySize int64       `json:"body_size"`
 	SlowBody bool        `json:"slow_body,omitempty"`
 	Plan     *respPlan   `json:"-"`
-	PlanDesc string      `json:"plan"`
+	// key overrides for the long-lived connection cases ("" = default keys)
+	NoRespKey string `json:"no_resp_key,omitempty"`
+	TruncKey  string `json:"trunc_key,omitempty"`
+	PlanDesc  string `json:"plan"`
 }
 
 var hopByHop = map[string]bool{
